@@ -150,6 +150,10 @@ type Summ struct {
 	NilFns map[*ssa.Function]bool
 	// InlineFilter, when set, must also accept a callee for it to be inlined.
 	InlineFilter func(fn *ssa.Function) bool
+	// AlwaysInline: small effect-free guard helpers (they only test CheckAction / the current
+	// event and return a bool or an error) are inlined whatever the depth bound, so that a
+	// guard extracted into a helper is seen as the guard it is.
+	AlwaysInline map[*ssa.Function]bool
 
 	paths   []*PathSum
 	cut     string
@@ -161,8 +165,60 @@ func newSumm(p *Prog, depth int) *Summ {
 	if p.nilFns == nil {
 		p.nilFns = alwaysNilFns(p)
 	}
+	if p.guardHelpers == nil {
+		p.guardHelpers = findGuardHelpers(p)
+	}
 	return &Summ{P: p, Ix: p.Index(), MaxDepth: depth, MaxPaths: 4096, NoInline: map[string]bool{},
-		EngineAliases: true, loopsOf: map[*ssa.Function][]*Loop{}, NilFns: p.nilFns}
+		EngineAliases: true, loopsOf: map[*ssa.Function][]*Loop{}, NilFns: p.nilFns, AlwaysInline: p.guardHelpers}
+}
+
+// findGuardHelpers: unexported, loop-free, effect-free functions of at most 6 blocks that
+// call a method named CheckAction or compare Status.CurrentEvent, and return a bool or an error.
+func findGuardHelpers(p *Prog) map[*ssa.Function]bool {
+	out := map[*ssa.Function]bool{}
+	ix := p.Index()
+	for _, fn := range p.Funcs {
+		if fn.Parent() != nil || token.IsExported(fn.Name()) || len(fn.Blocks) > 6 || len(findLoops(fn)) > 0 {
+			continue
+		}
+		res := fn.Signature.Results()
+		if res.Len() != 1 {
+			continue
+		}
+		rt := typeShort(res.At(0).Type())
+		if rt != "error" && rt != "bool" {
+			continue
+		}
+		if fi := ix.Info[fn]; fi == nil || len(fi.TWrites) > 0 {
+			continue
+		}
+		guard := false
+		for _, b := range fn.Blocks {
+			for _, in := range b.Instrs {
+				switch x := in.(type) {
+				case ssa.CallInstruction:
+					cc := x.Common()
+					n := ""
+					if cc.IsInvoke() {
+						n = cc.Method.Name()
+					} else if f := cc.StaticCallee(); f != nil {
+						n = f.Name()
+					}
+					if n == "CheckAction" {
+						guard = true
+					}
+				case *ssa.BinOp:
+					if loadsField(x.X, "pokerface.Status.CurrentEvent") || loadsField(x.Y, "pokerface.Status.CurrentEvent") {
+						guard = true
+					}
+				}
+			}
+		}
+		if guard {
+			out[fn] = true
+		}
+	}
+	return out
 }
 
 func (s *Summ) loops(fn *ssa.Function) []*Loop {
@@ -962,6 +1018,15 @@ func (s *Summ) load(addr *Val, t types.Type, st *state) *Val {
 	if g, ok := st.havoc[fk]; ok && fk != "" {
 		return s.symFor(fmt.Sprintf("%s@h%d", loc, g), t)
 	}
+	// a field of a struct value that was stored as a whole (x := y; x.f): derive from the source
+	for i := len(loc) - 1; i > 0; i-- {
+		if loc[i] != '.' {
+			continue
+		}
+		if whole, ok := st.store[loc[:i]]; ok && whole.K == KSym && whole.Op == "" {
+			return s.symFor(whole.S+loc[i:], t)
+		}
+	}
 	if st.fresh[loc] {
 		// zero value of a fresh local
 		if isIntType(t) {
@@ -1085,7 +1150,8 @@ func (s *Summ) call(fr *frame, x *ssa.Call, b *ssa.BasicBlock, i int, from *ssa.
 		return
 	}
 	// inline small loop-free module functions
-	if ev.Fn != nil && fr.depth < s.MaxDepth && !s.NoInline[ev.Callee] && !st.onstack[ev.Fn] && s.inlinable(ev.Fn) && (s.InlineFilter == nil || s.InlineFilter(ev.Fn)) {
+	if ev.Fn != nil && !s.NoInline[ev.Callee] && !st.onstack[ev.Fn] && s.inlinable(ev.Fn) &&
+		((fr.depth < s.MaxDepth && (s.InlineFilter == nil || s.InlineFilter(ev.Fn))) || (s.AlwaysInline[ev.Fn] && fr.depth < s.MaxDepth+2)) {
 		callee := ev.Fn
 		s.nframes++
 		nfr := &frame{fn: callee, depth: fr.depth + 1, id: s.nframes}
